@@ -32,6 +32,14 @@
 //  * an alarm's callback may call enable()/refresh()/disable()/initialize() on its own alarm; a one-shot re-enabled from its
 //    callback must wait for an instant strictly after the one being delivered.  Arming for an instant whose callback already
 //    ran (and that no backward step / cleanup() re-exposed) is reported at the arming, not only when the second callback comes.
+//  * initialize() with invalid arguments must be refused and leave a configured alarm exactly as it was (weekly, one-shot, workday).  For
+//    CronAlarm this does not hold on the unchanged tree (partial expression left behind): C20_CRON_REJECTED_INIT=1 turns the op on there.
+//  * a repeating alarm whose re-arm at a fire finds no further instant (within the class's search horizon) ends up stopped; a later calendar
+//    update does not revive it by itself (refresh() of a stopped alarm does nothing), enable() does.
+//  * the wall clock stands at a non-zero microsecond; "never shorter than the wall-clock distance" is judged in microseconds.
+//  * the process time zone (TZ) is a DST zone far from UTC; since every alarm sets its zone explicitly nothing may depend on it.
+//  * cleanup() called from the alarm's own callback is explored (it destroys the std::function that is running: the harness' closure is a single
+//    pointer copied to a local first); accepted outcome = stopped, un-initialised, callback gone.
 //  * cron: day-of-month and day-of-week both restricted = both must hold (what the bundled ccronexpr implements).  Expressions
 //    that exposed the three ccronexpr defects (see cron_cases()) are evaluated by default; C20_CRON_KNOWN_DEFECTS=0 leaves them out.
 #include "hist/hist.h"
